@@ -7,9 +7,18 @@ Correspondence: random interleavings of predict / observable / CFF / chisq / XSi
 theories and bundled points; after every call the parameter dictionary and the point are compared
 with what the model says (unchanged) and the returned value bit-for-bit with the same call on a
 freshly constructed theory and a fresh copy of the point (the model's cache-free specification).
+
+State is compared BY VALUE: the snapshot of a point (and of the attributes of its dataset) is taken before the first
+call of a history and descends into nested containers (units, newunits, errtypes ... are dictionaries / lists that a
+bundled point SHARES with its dataset and with every sibling point: a shallow copy holds the very same objects).
+Further streams, all against fresh objects: shared-containers (two sibling points of every bundled dataset whose
+loading changed conventions, orig_conventions / plain predictions interleaved); special-values (consecutive
+evaluations on one object that differ in exactly one input - t, Q2 or one parameter - taking small integer values,
+among them the pairs that are different numbers with the same hash() in CPython, e.g. -1 and -2).
 """
 import copy
 import hashlib
+import sys
 
 import numpy as np
 
@@ -30,15 +39,71 @@ def params_tokens(d):
     return ['%s=%s' % (k, dig(v)) for k, v in d.items() if k not in DERIVED]
 
 
+def deep_canon(v):
+    """canonical text of a value, BY VALUE, descending into containers (floats by bit pattern)"""
+    if isinstance(v, dict):
+        return '{' + ','.join(sorted(repr(k) + ':' + deep_canon(x) for k, x in v.items())) + '}'
+    if isinstance(v, (list, tuple)):
+        return '[' + ','.join(deep_canon(x) for x in v) + ']'
+    if isinstance(v, (set, frozenset)):
+        return 'S{' + ','.join(sorted(deep_canon(x) for x in v)) + '}'
+    if isinstance(v, np.ndarray):
+        return 'A%s:%s' % (v.shape, hashlib.sha1(np.ascontiguousarray(v).tobytes()).hexdigest()[:12])
+    if isinstance(v, float):
+        return f2hex(v)
+    return repr(v)
+
+
+CONTAINERS = (dict, list, set, np.ndarray)
+
+
 def pt_tokens(pt):
+    """the state of a point as tokens name=digest; containers by value (a later call sees a mutation of a nested
+    dictionary even if the snapshot it is compared with holds the same object)"""
     out = []
     for k, v in pt.items():
         if k == 'dataset':
             continue
-        if isinstance(v, (dict, list)):
-            v = repr(sorted(v.items())) if isinstance(v, dict) else repr(v)
+        if isinstance(v, CONTAINERS + (tuple,)):
+            v = deep_canon(v)
         out.append('%s=%s' % (k, dig(v)))
     return out
+
+
+def deep_point(pt):
+    """a copy of the point that shares no mutable attribute with it (the back-reference to the dataset is kept)"""
+    c = pt.copy()
+    for k, v in list(c.items()):
+        if k != 'dataset' and isinstance(v, CONTAINERS):
+            c[k] = copy.deepcopy(v)
+    return c
+
+
+def ds_tokens(ds):
+    """attributes of a DataSet (units, newunits, preamble keys ...) by value"""
+    return sorted('%s=%s' % (k, dig(deep_canon(v))) for k, v in getattr(ds, '__dict__', {}).items())
+
+
+def restore_point(p, p0):
+    """put a shared point back to the snapshot p0 (a deep_point taken before), nested containers in place"""
+    for k, v in p0.items():
+        cur = p.get(k)
+        if k != 'dataset' and isinstance(v, dict) and isinstance(cur, dict):
+            cur.clear()
+            cur.update(copy.deepcopy(v))
+        elif k != 'dataset' and isinstance(v, list) and isinstance(cur, list):
+            cur[:] = copy.deepcopy(v)
+        else:
+            p[k] = v
+    for k in [k for k in p if k not in p0]:
+        del p[k]
+
+
+def same_result(a, b):
+    """canonical results equal; two results that both contain a NaN count as equal (payload bits are not compared)"""
+    nan = ('7ff8', 'fff8', '7ff0', 'fff0')
+    return a == b or (not a.startswith('EXC') and not b.startswith('EXC') and
+                      any(t in a for t in nan) and any(t in b for t in nan) and len(a) == len(b))
 
 
 def canon_result(r):
@@ -141,17 +206,39 @@ def config_stream(rep, rng, quick):
                     hist.append(repr(float(j['point']['Q2'])))
             tbl = getattr(th, attr, None)
             mlines.append('c12.memo ' + ' '.join(hist))
-            mmeta.append((ci, attr, pc, th, hist, None if tbl is None else [repr(float(k)) for k in tbl]))
-    mout = common.run_driver(mlines)
+            try:
+                keys = None if tbl is None else [repr(float(k)) for k in tbl]
+            except Exception:
+                keys = ['<not-a-Q2:%r>' % (k,) for k in tbl]
+            mmeta.append((ci, attr, pc, th, hist, keys))
+    try:
+        mout = common.run_driver(mlines)
+    except common.ModelUnavailable as ex:
+        mout = [None] * len(mlines)
+        rep.violation('model-unavailable', 'the Lean model driver of C12 could not be run (%s): stored tables are compared with '
+                      'recomputation and values with fresh objects only' % str(ex)[:300], dict(reason=str(ex)[:300]), found_input=False)
     for (ci, attr, pc, th, hist, keys), o in zip(mmeta, mout):
+        if keys is None:
+            # the table is not there under this name: the NAME of a cache is no part of the property (a clean-up may rename or
+            # restructure it); this look at the implementation is skipped, values = fresh-object values carry the property
+            common.private(rep, th, attr, 'memo-table stream (keys / recomputation of the stored coefficient tables) skipped for this table')
+            rep.hist('memo-table', attr + ': absent, skipped')
+            continue
+        if not isinstance(getattr(th, attr), dict):
+            rep.notes.append('attribute %s of the theory is no longer a dictionary keyed by Q2: memo-table stream skipped for it' % attr)
+            rep.hist('memo-table', attr + ': not a dict, skipped')
+            continue
         rep.case('memo-table', (ci, attr, tuple(hist)), sample=dict(config=ci, table=attr, lookups=hist, keys=keys) if ci == 0 else None)
-        if keys is None or keys != o.split():
+        if o is not None and keys != o.split():
             rep.violation('memo/keys/' + attr, 'table %s of the shared theory (configuration %d) holds the keys %s after the lookups %s; '
                           'a table keyed by Q2 alone holds %s' % (attr, ci, keys, hist, o.split()),
                           dict(config=ci, table=attr, lookups=hist, keys=keys, model=o.split()), found_input=False)
             continue
+        calc = common.private(rep, wilson, 'calc_wce', 'recomputation of the stored coefficient tables skipped')
+        if calc is None:
+            continue
         for q, stored in getattr(th, attr).items():
-            fresh = wilson.calc_wce(th, q, pc)
+            fresh = calc(th, q, pc)
             fresh = fresh[0, :, :] if attr == 'wce_dis' else fresh
             if not np.array_equal(np.asarray(stored), np.asarray(fresh)):
                 rep.violation('memo/stale/' + attr, 'table %s[%r] of the shared theory (configuration %d) is not what '
@@ -163,7 +250,7 @@ def config_stream(rep, rng, quick):
     os.close(fd)
     try:
         json.dump([jobs[i] for i in order], open(path, 'w'))
-        rc, out, err = common.sh(['/venv/bin/python', os.path.join(common.VERIF, 'harness', 'ref_eval.py'), path], timeout=1200)
+        rc, out, err = common.sh([sys.executable, os.path.join(common.VERIF, 'harness', 'ref_eval.py'), path], timeout=1200)
     finally:
         os.remove(path)
     if rc != 0:
@@ -194,7 +281,7 @@ def ftn_stream(rep, rng, quick):
     pool = (rng.sample(zero, min(len(zero), 6 if quick else 60)) + rng.sample(cand, min(len(cand), 6 if quick else 60)))
     ths = [fits.th_KM09a, fits.th_KM15] if not quick else [fits.th_KM09a]
     for th in ths:
-        for p in pool:
+        for ip, p in enumerate(pool):
             before = dict(p)
             for op in ('XSintphi', 'predict'):
                 try:
@@ -205,7 +292,7 @@ def ftn_stream(rep, rng, quick):
                     out = 'ok'
                 except Exception as e:
                     out = 'EXC:' + type(e).__name__
-                rep.case('ftn', (id(p), op, th.name), sample=dict(dataset=p.get('id'), FTn=p.get('FTn'), op=op, outcome=out) if p is pool[0] else None)
+                rep.case('ftn', (ip, p.get('id'), p.get('FTn'), op, th.name), sample=dict(dataset=p.get('id'), FTn=p.get('FTn'), op=op, outcome=out) if p is pool[0] else None)
                 if dict(p) != before:
                     changed = {k: (before.get(k), p.get(k)) for k in set(before) | set(p) if before.get(k, None) is not p.get(k, None) and before.get(k) != p.get(k)}
                     rep.violation('point/%s/FTn=%s' % (op, before.get('FTn')),
@@ -213,6 +300,215 @@ def ftn_stream(rep, rng, quick):
                                       p.get('id'), before.get('FTn'), p.get('observable'), op, th.name, changed),
                                   dict(dataset=p.get('id'), FTn=before.get('FTn'), op=op, changed=str(changed)))
                     p.clear(); p.update(before)       # repair the shared point for the rest of the run
+
+
+def fresh_theory(fac, name, p0=None):
+    th, cls, ckw = fac[name]
+    f = cls(**ckw)
+    f.parameters.update(th.parameters if p0 is None else p0)
+    return f
+
+
+def shared_containers_stream(rep, rng, quick):
+    """Two sibling points p, q of one bundled dataset hold the SAME units / newunits / errtypes objects (loading copies the
+    dataset's attribute dictionary into every point).  Predictions for p and q are interleaved - with and without
+    orig_conventions=True - on a shared shipped theory; after every call p, q and the attributes of their dataset are
+    compared by value with deep snapshots taken before the first call, and the returned value with the same call on a fresh
+    theory and deep copies of the points.  Every dataset whose loading changed conventions (non-empty newunits: degrees,
+    pb) is visited in every run, the others by sample."""
+    import gepard as g
+    fac = fresh_factories()
+    keys = [k for k in sorted(g.dset) if len(g.dset[k])]
+    conv = [k for k in keys if g.dset[k][0].get('newunits')]
+    rest = [k for k in keys if k not in conv]
+    chosen = conv + (rng.sample(rest, min(len(rest), 8)) if quick else rest)
+    rep.coverage['shared_containers_datasets'] = dict(conventions_changed_at_loading=len(conv), others=len(chosen) - len(conv))
+    for i, k in enumerate(chosen):
+        ds = g.dset[k]
+        ip = rng.randrange(len(ds))
+        p = ds[ip]
+        shared_attrs = sorted(a for a, v in p.items() if a != 'dataset' and isinstance(v, (dict, list)))
+        sib = [j for j, q in enumerate(ds) if j != ip and any(q.get(a) is p[a] for a in shared_attrs)]
+        same_q2 = [j for j in sib if ds[j].get('Q2') == p.get('Q2')]
+        iq = rng.choice(same_q2 or sib) if sib else None
+        q = ds[iq] if iq is not None else None
+        P0, Q0 = deep_point(p), (deep_point(q) if q is not None else None)
+        tp0, tq0, td0 = pt_tokens(p), (pt_tokens(q) if q is not None else None), ds_tokens(ds)
+        # a shipped theory that can describe the point, probed on a fresh theory and a deep copy: the dispersive KM09a (cheap) for
+        # most datasets, a Mellin-Barnes based one (KM15 / AFKM12, one evolution per new Q2) for every seventh and where KM09a has no formula
+        order = ['KM09a', 'KM15', 'AFKM12'] if i % 7 else (['KM15', 'AFKM12', 'KM09a'] if i % 2 else ['AFKM12', 'KM15', 'KM09a'])
+        name = ref_plain = fth = None
+        for nm in order:
+            fth = fresh_theory(fac, nm)
+            r = call_real(fth, deep_point(P0), dict(kind='predict', kw={}))
+            if not r.startswith('EXC:'):
+                name, ref_plain = nm, r
+                break
+        if name is None:
+            rep.hist('shared-containers.theory', 'none can describe dataset %s' % k)
+            continue
+        th = fac[name][0]
+        par0 = params_tokens(th.parameters)
+        rep.hist('shared-containers.theory', name)
+        rep.hist('shared-containers.newunits', ','.join(sorted(p.get('newunits', {}))) or '-')
+        plan = [('orig', 'p'), ('orig', 'q'), ('plain', 'p'), ('orig', 'p'), ('plain', 'q')]
+        done = []
+        for kind, who in plan:
+            tgt, T0 = (p, P0) if who == 'p' else (q, Q0)
+            if tgt is None:
+                continue
+            kw = {'orig_conventions': True} if kind == 'orig' else {}
+            res = call_real(th, tgt, dict(kind='predict', kw=kw))
+            if kind == 'plain' and who == 'p':
+                ref = ref_plain
+            else:
+                # reference: the fresh theory of this dataset (it has seen only deep copies), thorough tier: a new one per call
+                ref = call_real(fth if quick else fresh_theory(fac, name), deep_point(T0), dict(kind='predict', kw=kw))
+            done.append('predict(%s%s)' % (who, ', orig_conventions=True' if kind == 'orig' else ''))
+            rep.case('shared-containers', (k, ip, iq, len(done)), sample=dict(dataset=k, theory=name, p=ip, q=iq, calls=list(done), shared=shared_attrs) if i < 2 and len(done) == 2 else None)
+            base = dict(theory=name, dataset=k, p_index=ip, q_index=iq, calls=list(done), shared_attributes=shared_attrs)
+            bad = None
+            for label, now, before in (('p', pt_tokens(p), tp0), ('q', pt_tokens(q) if q is not None else None, tq0),
+                                       ('dataset attributes', ds_tokens(ds), td0)):
+                if before is not None and sorted(now) != sorted(before):
+                    bad = (label, sorted(set(now) ^ set(before)))
+                    break
+            if bad:
+                detail = {a: (deep_canon(P0.get(a))[:120], deep_canon(p.get(a))[:120]) for a in shared_attrs if deep_canon(P0.get(a)) != deep_canon(p.get(a))}
+                rep.violation('shared-container/%s/%s' % (kind, bad[0].split(' ')[0]),
+                              'bundled dataset %s, points p = #%d and q = #%s (they hold the same %s objects): after %s on shared theory %s the state of %s '
+                              'differs BY VALUE from the snapshot taken before the first call: %s %s' % (
+                                  k, ip, iq, '/'.join(shared_attrs), ' ; '.join(done), name, bad[0], bad[1][:6], detail),
+                              dict(base, changed=bad[1], nested=str(detail)))
+                restore_point(p, P0)
+                if q is not None:
+                    restore_point(q, Q0)
+                break
+            if params_tokens(th.parameters) != par0:
+                rep.violation('shared-container/params', 'theory parameters of %s changed by %s' % (name, done), base)
+                break
+            if not same_result(res, ref):
+                rep.violation('shared-container/value/%s' % kind, 'bundled dataset %s: %s on shared theory %s (after %s) returns %s, the same call '
+                              'on a fresh theory and deep copies of the points returns %s' % (k, done[-1], name, done[:-1], res[:60], ref[:60]),
+                              dict(base, shared=res, fresh=ref))
+                break
+
+
+def special_values_stream(rep, rng, quick):
+    """Consecutive evaluations on ONE theory object that differ in exactly one input - t, Q2 or one parameter - taking
+    small integer values: a, b, a (, b) with nothing in between, each compared bit for bit with the same evaluation on a
+    fresh object.  The pairs include the numbers that are different but hash alike in CPython (hash(-1) == hash(-2),
+    also as float and numpy scalar), integer versus float spelling of one value, 0 / 1 / 2: whatever a memo might be keyed by."""
+    import gepard as g
+    import ref_eval
+    fac = fresh_factories()
+    # different numbers with the same hash() among the small integers (CPython: -1 and -2), found, not assumed
+    small = [v for n in range(-4, 5) for v in (n, float(n))]
+    coll = sorted({(a, b) for a in small for b in small if a != b and hash(a) == hash(b) and a > b}, key=repr)
+    rep.coverage['hash_colliding_small_numbers'] = [list(c) for c in coll]
+    neg_pairs = [(float(a), float(b)) for a, b in coll if a <= 0 and b <= 0 and isinstance(a, int) and isinstance(b, int)] or [(-1.0, -2.0)]
+    par_pairs = neg_pairs + [(int(neg_pairs[0][0]), int(neg_pairs[0][1]))]
+    mbspec = dict(bases=['PWNormGPD', 'MellinBarnesCFF', 'MellinBarnesTFF', 'DIS', 'BMK', 'DVMP'], kwargs=dict(p=0),
+                  params={'ns': 0.15, 'al0s': 1.1, 'alps': 0.15, 'ms2': 1.0, 'secs': 0.2, 'al0g': 1.2, 'alpg': 0.15, 'mg2': 0.7,
+                          'secg': -0.5, 'this': 0.0, 'thig': 0.0, 'kaps': 0.7, 'Ens': 0.25, 'Esecs': 0.1})
+    xB = rng.choice([0.01, 0.05, 0.1])
+    kin = dict(xB=xB, t=-0.3, Q2=4.0)
+    # between them these depend on every parameter of the shipped models (H: sea + valence; E: sea + subtraction constant; Ht; pion pole)
+    cffs = [(c, kin) for c in (('ImH', 'ReE', 'ReHt', 'ReEt') if quick else ('ImH', 'ReH', 'ImE', 'ReE', 'ImHt', 'ReHt', 'ImEt', 'ReEt'))]
+    targets = [
+        # (label, shared object, maker of a fresh equal object, groups of (entry, point kwargs))
+        ('KM15', fac['KM15'][0], lambda: fresh_theory(fac, 'KM15'), [cffs]),
+        ('MB-adhoc', ref_eval.build(mbspec), lambda: ref_eval.build(mbspec),
+         [cffs[:2] if quick else cffs[:4], [('XGAMMA', dict(W=82., Q2=4.0, t=-0.3, process='gammastarp2rho0p')), ('XGAMMA', dict(W=82., Q2=4.0, t=-0.3, process='gammastarp2gammap'))],
+          # (x-space GPDs recompute the evolution on every call - 60 ms each: thorough tier, and one t-chain in quick)
+          [('DISF2', dict(xB=xB, Q2=4.0))] + ([] if quick else [('Hx', dict(x=xB, eta=0.0, t=-0.3, Q2=4.0)), ('Ex', dict(x=xB, eta=xB, t=-0.3, Q2=4.0))])]),
+        ('KM09a', fac['KM09a'][0], lambda: fresh_theory(fac, 'KM09a'), [cffs]),
+    ]
+
+    def evaluate(th, entry, kwpt, par, mode):
+        """one evaluation; par = None or (name, value); mode 'override' = predict(parameters=...), 'assign' = th.parameters[...] = v"""
+        pt = g.DataPoint(**kwpt)
+        if par is None or mode == 'override':
+            kw = {'observable': entry}
+            if par is not None:
+                kw['parameters'] = {par[0]: par[1]}
+            return call_real(th, pt, dict(kind='predict', kw=kw))
+        old = th.parameters[par[0]]
+        th.parameters[par[0]] = par[1]
+        try:
+            return call_real(th, pt, dict(kind='method', name=entry))
+        finally:
+            th.parameters[par[0]] = old
+
+    def fresh_value(mk, entry, kwpt, par):
+        f = mk()
+        if par is not None:
+            f.parameters[par[0]] = par[1]
+        return call_real(f, g.DataPoint(**kwpt), dict(kind='method', name=entry))
+
+    nfresh = 0
+    for label, th, mk, groups in targets:
+        p0 = dict(th.parameters)
+        allent = [e for grp in groups for e in grp]
+        slots = []
+        # kinematic slots: all entries; parameter slots: quick - the group of entries rotates with the parameter, thorough - all
+        for a, b in neg_pairs + [(-1, -2.0), (0.0, -1.0)]:
+            slots.append((allent, 't', None, (a, b)))
+        if quick and label == 'MB-adhoc':
+            slots.append(([('Hx', dict(x=xB, eta=0.0, t=-0.3, Q2=4.0))], 't', None, neg_pairs[0]))
+        slots.append((allent, 'Q2', None, (1.0, 2.0)))
+        slots.append((allent, 'Q2', None, (2, 2.0)))         # one value, two spellings
+        pars = [k for k, v in p0.items() if isinstance(v, (int, float)) and not isinstance(v, bool)]
+        for ik, k in enumerate(pars):
+            ent = allent if not quick else groups[ik % len(groups)]
+            for pr in (par_pairs if not quick else [par_pairs[ik % len(par_pairs)]]):
+                slots.append((ent, 'par', k, pr))
+        for si, (ent, slot, pname, (a, b)) in enumerate(slots):
+            mode = 'override' if si % 2 == 0 else 'assign'
+            ent = [(e, kw) for e, kw in ent if slot == 'par' or slot in kw]
+            refs = {}
+            chain = [a, b, a] if quick else [a, b, a, b]
+            got = []
+            for v in chain:
+                par = (pname, v) if slot == 'par' else None
+                kws = [dict(kw) if slot == 'par' else dict(kw, **{slot: v}) for e, kw in ent]
+                got.append([evaluate(th, e, kw_v, par, mode) for (e, _), kw_v in zip(ent, kws)])
+                key = (repr(v), type(v).__name__)
+                if key not in refs:
+                    if quick:
+                        f = mk()        # one fresh object per value, the entries in the same order
+                        if par is not None:
+                            f.parameters[par[0]] = par[1]
+                        refs[key] = [call_real(f, g.DataPoint(**kw_v), dict(kind='method', name=e)) for (e, _), kw_v in zip(ent, kws)]
+                        nfresh += 1
+                    else:
+                        refs[key] = [fresh_value(mk, e, kw_v, par) for (e, _), kw_v in zip(ent, kws)]
+                        nfresh += len(ent)
+            want = [refs[(repr(v), type(v).__name__)] for v in chain]
+            sens = want[0] != want[1]
+            rep.case('special-values', (label, slot, pname, repr(a), repr(b)), nontrivial=True,
+                     sample=dict(theory=label, entries=[e for e, _ in ent], slot=pname or slot, values=[repr(v) for v in chain],
+                                 results=[[r[:18] for r in rr] for rr in got[:2]]) if si in (0, len(slots) - 1) else None)
+            rep.hist('special-values.slot', '%s/%s%s' % (label, slot, '' if sens else ' (results do not depend on it)'))
+            if params_tokens(th.parameters) != params_tokens(p0):
+                rep.violation('special-values/params/' + label, 'parameters of the shared theory %s changed by evaluations with %s=%r/%r (%s)' % (
+                    label, pname or slot, a, b, mode), dict(theory=label, slot=pname or slot, values=[repr(v) for v in chain], mode=mode))
+                th.parameters.clear()
+                th.parameters.update(p0)
+            bad = [(step, j) for step in range(len(chain)) for j in range(len(ent)) if not same_result(got[step][j], want[step][j])]
+            if bad:
+                step, j = bad[0]
+                e, kwpt = ent[j]
+                r, w = got[step][j], want[step][j]
+                how = ('predict(parameters=...)' if mode == 'override' else 'parameters[...] = v') if slot == 'par' else 'points built with that value'
+                rep.violation('special-values/%s/%s' % (label, 'parameter' if slot == 'par' else slot),
+                              '%s: %s evaluated one after another on one object with %s = %s (%s): in round #%d (%s = %r) %s at %s returns %s, '
+                              'a fresh object returns %s; the round before had %s = %r' % (
+                                  label, [x for x, _ in ent], pname or slot, [repr(v) for v in chain], how, step + 1, pname or slot, chain[step],
+                                  e, kwpt, r[:60], w[:60], pname or slot, chain[step - 1] if step else None),
+                              dict(theory=label, entries=[x for x, _ in ent], entry=e, point=kwpt, slot=pname or slot, values=[repr(v) for v in chain],
+                                   mode=mode, round=step, shared=r, fresh=w))
+    rep.coverage['special_values_fresh_evaluations'] = nfresh
 
 
 def run(rep):
@@ -224,8 +520,26 @@ def run(rep):
     from gepard import fits
     fac = fresh_factories()
     names = ['KM09a', 'KM09b', 'KM15', 'KM10b'] + ([] if quick else ['AFKM12'])
-    # dataset fingerprints before anything is evaluated
+    # dataset fingerprints before anything is evaluated (points by value, and the attributes of the datasets themselves)
     ds_before = {k: [pt_fingerprint(p) for p in g.dset[k]] for k in g.dset}
+    dsattr_before = {k: ds_tokens(g.dset[k]) for k in g.dset}
+    # uncertainty=True needs parameters_errors (and no covariance) on the shared theories: what they carried before is put back at the end
+    MISSING = object()
+    saved_cfg = {n: {a: (copy.deepcopy(getattr(fac[n][0], a)) if hasattr(fac[n][0], a) else MISSING)
+                     for a in ('parameters_errors', 'covariance')} for n in names}
+    try:
+        return _run(rep, g, rng, ok, why, quick, fits, fac, names, ds_before, dsattr_before, pt_fingerprint)
+    finally:
+        for n, d in saved_cfg.items():
+            for a, v in d.items():
+                if v is MISSING:
+                    if a in getattr(fac[n][0], '__dict__', {}):
+                        delattr(fac[n][0], a)
+                else:
+                    setattr(fac[n][0], a, v)
+
+
+def _run(rep, g, rng, ok, why, quick, fits, fac, names, ds_before, dsattr_before, pt_fingerprint):
     nhist = 45 if quick else 400
     lines, hist = [], []
     for h in range(nhist):
@@ -240,7 +554,8 @@ def run(rep):
         if hasattr(th, 'covariance'):
             th.covariance = {}
         p0 = dict(th.parameters)
-        pt0 = pt.copy()
+        pt0 = deep_point(pt)                 # shares nothing mutable with the bundled point
+        pt0_tokens = pt_tokens(pt)           # by value, BEFORE the first call
         qid = {}
         ops = []
         for _ in range(rng.randint(3, 8 if quick else 14)):
@@ -280,7 +595,7 @@ def run(rep):
         real = []
         for op in ops:
             if op.get('strip'):
-                tgt = pt.copy()
+                tgt = deep_point(pt0)
                 for k in ('t', 'tm'):
                     tgt.pop(k, None)
                 if op['strip'] == 'xBW':
@@ -289,12 +604,22 @@ def run(rep):
                 elif op['strip'] == 'dvmp':
                     tgt['process'] = 'gammastarp2rho0p'
                 op['target'] = tgt
-                op['target0'] = tgt.copy()
+                op['target0'] = deep_point(tgt)
             else:
                 op['target'] = pt
                 op['target0'] = pt0
+            if op['kind'] == 'chisq':
+                op['pts0'] = [deep_point(q) for q in op['pts']]
+                others0 = [pt_tokens(q) for q in op['pts']]
             res = call_real(th, op['target'], op)
             real.append((res, params_tokens(th.parameters), pt_tokens(op['target'])))
+            if op['kind'] == 'chisq':
+                for q, q0, t0 in zip(op['pts'], op['pts0'], others0):
+                    if sorted(pt_tokens(q)) != sorted(t0):
+                        changed = sorted(set(pt_tokens(q)) ^ set(t0))
+                        rep.violation('point/chisq-points', 'a bundled point of dataset %s handed to chisq (theory %s) was changed by it: %s' % (
+                            q.get('id'), name, changed[:6]), dict(theory=name, dataset=q.get('id'), changed=changed))
+                        restore_point(q, q0)
             rep.hist('op', op['kind'] + ':' + ','.join(sorted(op.get('kw', {}))) + (op.get('name', '')) + ('/exc' if res.startswith('EXC') else ''))
         # ---- the specification: same call, fresh theory, fresh copy of the point ----
         spec = []
@@ -306,10 +631,12 @@ def run(rep):
                 fth.covariance = {}
             fop = dict(op)
             if op['kind'] == 'chisq':
-                fop['pts'] = [p.copy() for p in op['pts']]
-            spec.append(call_real(fth, op['target0'].copy(), fop))
+                fop['pts'] = [deep_point(q) for q in op['pts0']]
+            spec.append(call_real(fth, deep_point(op['target0']), fop))
         hist.append(dict(theory=name, dataset=pt.get('id'), ops=ops, real=real, spec=spec,
-                         p0=params_tokens(p0), pt0=pt_tokens(pt0)))
+                         p0=params_tokens(p0), pt0=pt0_tokens))
+        if sorted(pt_tokens(pt)) != sorted(pt0_tokens):
+            restore_point(pt, pt0)        # (reported below) repair the shared point for the rest of the run
         # model line (the point section describes the shared point; stripped targets are separate points,
         # modelled as their own one-call histories below)
         calls = []
@@ -320,18 +647,23 @@ def run(rep):
             ov = op.get('kw', {}).get('parameters')
             ovr = 'none' if ov is None else (','.join('%s=%s' % (k, dig(v)) for k, v in ov.items() if k not in DERIVED) or '-')
             calls.append('%s %d %s %s' % (obsname, q, use, ovr))
-        lines.append('c12.run P %s T %s K t FTn O %s' % (' '.join(params_tokens(p0)), ' '.join(pt_tokens(pt0)), ' ; '.join(calls)))
-    outs = common.run_driver(lines)
+        lines.append('c12.run P %s T %s K t FTn O %s' % (' '.join(params_tokens(p0)), ' '.join(pt0_tokens), ' ; '.join(calls)))
+    try:
+        outs = common.run_driver(lines)
+    except common.ModelUnavailable as ex:
+        outs = [None] * len(lines)
+        rep.violation('model-unavailable', 'the Lean model driver of C12 could not be run (%s): parameters / points are compared with their '
+                      'snapshots and values with fresh objects only' % str(ex)[:300], dict(reason=str(ex)[:300]), found_input=False)
     for line, H, o in zip(lines, hist, outs):
         rep.case('history', line, sample=dict(theory=H['theory'], dataset=H['dataset'],
                                               ops=[(op['kind'], sorted(op.get('kw', {})), op.get('name')) for op in H['ops']],
                                               results=[r[0][:20] for r in H['real']]))
         if o == 'bad-op':
             rep.violation('harness/bad-op', 'driver rejected line', dict(line=line[:500]), found_input=False)
-            continue
-        segs = o.split(' ;; ')
+            o = None          # the model-independent clauses are still evaluated
+        segs = o.split(' ;; ') if o is not None else [None] * len(H['ops'])
         for i, (op, (res, ptoks, pttoks), sp, seg) in enumerate(zip(H['ops'], H['real'], H['spec'], segs)):
-            mkey, mparams, mpt = seg.split(' ')
+            mkey, mparams, mpt = seg.split(' ') if seg is not None else (None, None, None)
             opdesc = (op['kind'], {k: (v if k != 'parameters' else sorted(v)) for k, v in op.get('kw', {}).items()}, op.get('name'))
             prev = [(p['kind'], sorted(p.get('kw', {})), p.get('name')) for p in H['ops'][:i]]
             base = dict(theory=H['theory'], dataset=H['dataset'], op=str(opdesc), previous_ops=str(prev))
@@ -342,7 +674,7 @@ def run(rep):
                               'theory parameters changed by %s on shared theory %s: %s' % (opdesc, H['theory'], changed[:6]),
                               dict(base, changed=changed))
                 break
-            if ','.join(ptoks) != mparams and not (mparams == '-' and not ptoks):
+            if mparams is not None and ','.join(ptoks) != mparams and not (mparams == '-' and not ptoks):
                 rep.violation('model/params', 'model params differ from code', dict(base, model=mparams[:300]), found_input=False)
                 break
             # (2) point unchanged
@@ -353,7 +685,7 @@ def run(rep):
                                   'DataPoint changed by %s (theory %s): %s' % (opdesc, H['theory'], changed[:6]),
                                   dict(base, changed=changed))
                     break
-                if sorted(mpt.split(',')) != sorted(H['pt0']):
+                if mpt is not None and sorted(mpt.split(',')) != sorted(H['pt0']):
                     rep.violation('model/point', 'model point differs from code', dict(base), found_input=False)
                     break
             else:
@@ -372,15 +704,33 @@ def run(rep):
     # ---- configuration stream: differently configured theories of the SAME classes evaluated at common
     # scales in one session (per-theory caches keyed by Q2 only), against a fresh interpreter that evaluates
     # every job on fresh objects in the reverse order ----
+    import time
+    secs = rep.coverage.setdefault('stream_seconds', {})
+    t0 = time.time()
     config_stream(rep, rng, quick)
+    secs['config'] = round(time.time() - t0, 1)
     # ---- points carrying FTn = 0 / unusual harmonic values through XSintphi and friends ----
+    t0 = time.time()
     ftn_stream(rep, rng, quick)
+    secs['ftn'] = round(time.time() - t0, 1)
+    # ---- sibling points of one bundled dataset (they share their units / newunits / errtypes containers) ----
+    t0 = time.time()
+    shared_containers_stream(rep, rng, quick)
+    secs['shared-containers'] = round(time.time() - t0, 1)
+    # ---- consecutive evaluations differing in one input that takes small integer values (-1 / -2 hash alike in CPython) ----
+    t0 = time.time()
+    special_values_stream(rep, rng, quick)
+    secs['special-values'] = round(time.time() - t0, 1)
     # bundled datasets unchanged
     for k in g.dset:
         now = [pt_fingerprint(p) for p in g.dset[k]]
         if now != ds_before[k]:
             idx = [i for i, (a, b) in enumerate(zip(now, ds_before[k])) if a != b][:3]
             rep.violation('dataset/%s' % k, 'bundled dataset %s changed by evaluations (points %s)' % (k, idx), dict(dataset=k, points=idx))
+        if ds_tokens(g.dset[k]) != dsattr_before[k]:
+            changed = sorted(set(ds_tokens(g.dset[k])) ^ set(dsattr_before[k]))
+            rep.violation('dataset-attributes/%s' % k, 'attributes of bundled dataset %s changed by evaluations: %s' % (k, changed[:6]),
+                          dict(dataset=k, changed=changed))
     rep.case('datasets', 'all', sample=dict(datasets=len(g.dset)))
     if not ok and not rep.violations:
         rep.violation('lean', 'Lean side of C12 no longer checks: ' + why, dict(reason=why), found_input=False)
